@@ -23,6 +23,7 @@ import (
 	"encoding/json"
 	"errors"
 	"fmt"
+	"reflect"
 	"sort"
 	"strings"
 	"testing"
@@ -82,8 +83,12 @@ func c40Snapshot(brokers int, topics []c40Topic) metadata.ClusterMetadata {
 	for _, t := range topics {
 		n := t.Name
 		mt := protocol.MetadataTopic{Topic: &n}
-		for p := 0; p < t.Parts; p++ {
-			mt.Partitions = append(mt.Partitions, protocol.MetadataPartition{Partition: int32(p), Leader: 1, Replicas: []int32{1}, ISR: []int32{1}})
+		// deliberately UNSORTED list-valued state (deterministic): partitions in a rotated,
+		// descending order, replica / ISR / offline lists out of order
+		for k := 0; k < t.Parts; k++ {
+			p := (t.Parts - 1 - k + len(n)) % t.Parts
+			mt.Partitions = append(mt.Partitions, protocol.MetadataPartition{Partition: int32(p), Leader: 1, LeaderEpoch: int32(p),
+				Replicas: []int32{3, 1, 2}, ISR: []int32{2, 1}, OfflineReplicas: []int32{9, 4, 7}})
 		}
 		st.Topics = append(st.Topics, mt)
 	}
@@ -565,6 +570,109 @@ type c40Result struct {
 	writes []string
 }
 
+// c40Scribble overwrites everything reachable from a value a store read method returned:
+// numbers, strings, slice elements (and their order), map entries.
+func c40Scribble(v reflect.Value, depth int) {
+	if depth > 10 {
+		return
+	}
+	switch v.Kind() {
+	case reflect.Ptr, reflect.Interface:
+		if !v.IsNil() {
+			c40Scribble(v.Elem(), depth+1)
+		}
+	case reflect.Struct:
+		for i := 0; i < v.NumField(); i++ {
+			if v.Type().Field(i).PkgPath == "" { // exported
+				c40Scribble(v.Field(i), depth+1)
+			}
+		}
+	case reflect.Slice, reflect.Array:
+		for i := 0; i < v.Len(); i++ {
+			c40Scribble(v.Index(i), depth+1)
+		}
+		for i, j := 0, v.Len()-1; i < j && v.Kind() == reflect.Slice; i, j = i+1, j-1 {
+			if v.Index(i).CanSet() {
+				tmp := reflect.New(v.Type().Elem()).Elem()
+				tmp.Set(v.Index(i))
+				v.Index(i).Set(v.Index(j))
+				v.Index(j).Set(tmp)
+			}
+		}
+	case reflect.Map:
+		if v.IsNil() {
+			return
+		}
+		for _, k := range v.MapKeys() {
+			e := v.MapIndex(k)
+			if e.Kind() == reflect.Ptr || e.Kind() == reflect.Map || e.Kind() == reflect.Slice {
+				c40Scribble(e, depth+1)
+			} else {
+				n := reflect.New(v.Type().Elem()).Elem()
+				n.Set(e)
+				c40Scribble(n, depth+1)
+				v.SetMapIndex(k, n)
+			}
+		}
+		if v.Type().Key().Kind() == reflect.String && (v.Type().Elem().Kind() == reflect.String) {
+			v.SetMapIndex(reflect.ValueOf("scribbled").Convert(v.Type().Key()), reflect.ValueOf("scribbled").Convert(v.Type().Elem()))
+		}
+	case reflect.String:
+		if v.CanSet() {
+			v.SetString("scribbled")
+		}
+	case reflect.Int, reflect.Int8, reflect.Int16, reflect.Int32, reflect.Int64:
+		if v.CanSet() {
+			v.SetInt(77)
+		}
+	case reflect.Uint, reflect.Uint8, reflect.Uint16, reflect.Uint32, reflect.Uint64:
+		if v.CanSet() {
+			v.SetUint(77)
+		}
+	case reflect.Bool:
+		if v.CanSet() {
+			v.SetBool(!v.Bool())
+		}
+	}
+}
+
+// c40AliasProbe: every read method of the store must hand out private copies. After each
+// one returns, everything reachable from the returned value is scribbled on; the store's
+// internal dump must not move. Returns the first offending method.
+func c40AliasProbe(ctx context.Context, st *metadata.InMemoryStore, topics, groups []string) (string, string) {
+	type probe struct {
+		name string
+		call func() any
+	}
+	var probes []probe
+	probes = append(probes, probe{"Metadata(all)", func() any { m, _ := st.Metadata(ctx, nil); return m }})
+	if len(topics) > 0 {
+		probes = append(probes, probe{"Metadata(filtered)", func() any { m, _ := st.Metadata(ctx, topics); return m }})
+	}
+	for _, t := range topics {
+		t := t
+		probes = append(probes, probe{"FetchTopicConfig", func() any { c, _ := st.FetchTopicConfig(ctx, t); return c }})
+	}
+	for _, g := range groups {
+		g := g
+		probes = append(probes, probe{"FetchConsumerGroup", func() any { x, _ := st.FetchConsumerGroup(ctx, g); return x }})
+	}
+	probes = append(probes, probe{"ListConsumerGroups", func() any { x, _ := st.ListConsumerGroups(ctx); return x }},
+		probe{"ListConsumerOffsets", func() any { x, _ := st.ListConsumerOffsets(ctx); return x }})
+	for _, p := range probes {
+		before := metadata.VerifSnapshot(st)
+		v := p.call()
+		if v == nil {
+			continue
+		}
+		c40Scribble(reflect.ValueOf(v), 0)
+		if after := metadata.VerifSnapshot(st); after != before {
+			return p.name, fmt.Sprintf("the value returned by InMemoryStore.%s shares memory with the store: overwriting the returned value changed the store's internal state\nbefore:\n%s\nafter:\n%s", p.name, before, after)
+		}
+	}
+	return "", ""
+}
+
 // c40Run populates a fresh store and performs the calls of the case.
 func c40Build(ctx context.Context, cs c40Case) (*metadata.InMemoryStore, []string) {
 	st := metadata.NewInMemoryStore(c40Snapshot(cs.Brokers, cs.Initial))
@@ -585,6 +693,13 @@ func c40Run(t *testing.T, cs c40Case, rep *vReport) c40Result {
 	setFail := func(key, what string) {
 		if res.fail == "" {
 			res.key, res.fail = key, what
+		}
+	}
+	// store-level obligation the read-only argument relies on: reads return private copies
+	{
+		probeStore, _ := c40Build(ctx, cs)
+		if m, what := c40AliasProbe(ctx, probeStore, c40Topics, c40Groups); what != "" {
+			setFail("store-read-returns-shared-state-"+strings.SplitN(m, "(", 2)[0], what)
 		}
 	}
 	rec := &c40Rec{inner: st}
@@ -730,16 +845,36 @@ func TestVerifC40(t *testing.T) {
 	} else {
 		// corpus: a topic known only from the cluster snapshot (no recorded config) is described,
 		// then the snapshot is refreshed with more partitions for it
+		// corpus: describe a snapshot topic whose partition / ISR / offline lists are not sorted, by name
+		runOne(c40Case{Brokers: 2, Initial: []c40Topic{{Name: "orders", Parts: 4}, {Name: "events", Parts: 3}},
+			Calls: []c40Call{{Tool: toolDescribeTopics, Args: json.RawMessage(`{"names":["orders","events"]}`)}, {Tool: toolDescribeTopics, Args: json.RawMessage(`{"names":[]}`)}, {Tool: toolFetchOffsets, Args: json.RawMessage(`{"group_id":"g1","topics":["orders"]}`)}}})
 		runOne(c40Case{Brokers: 1, Initial: []c40Topic{{Name: "orders", Parts: 2}},
 			Calls: []c40Call{{Tool: toolDescribeConfigs, Args: json.RawMessage(`{}`)}, {Tool: toolDescribeConfigs, Args: json.RawMessage(`{"topics":["orders"]}`)}, {Tool: toolFetchOffsets, Args: json.RawMessage(`{"group_id":"g1"}`)}},
 			Later: []c40Op{{K: "up", N: 1, Topics: []c40Topic{{Name: "orders", Parts: 5}}}}})
 		r := vNewRand(vSeed())
-		n := vN(30, 400)
+		n := vN(22, 400)
 		for i := 0; i < n; i++ {
 			rr := r.Fork()
 			cs := c40Case{Brokers: rr.Range(1, 3), Initial: c40GenSnapshotTopics(rr, 0, 3), Populate: c40GenPopulate(rr)}
 			for _, tool := range tools {
 				cs.Calls = append(cs.Calls, c40Call{Tool: tool, Args: c40GenArgs(rr, tool)})
+			}
+			// tools that take a filter: once unfiltered and once with the names that exist
+			var known []string
+			for _, it := range cs.Initial {
+				known = append(known, it.Name)
+			}
+			for _, op := range cs.Populate {
+				if op.K == "ct" {
+					known = append(known, op.Topic)
+				}
+			}
+			if len(known) > 0 {
+				kj, _ := json.Marshal(known)
+				cs.Calls = append(cs.Calls,
+					c40Call{Tool: toolDescribeTopics, Args: json.RawMessage(`{"names":[]}`)}, c40Call{Tool: toolDescribeTopics, Args: json.RawMessage(`{"names":` + string(kj) + `}`)},
+					c40Call{Tool: toolDescribeConfigs, Args: json.RawMessage(`{"topics":[]}`)}, c40Call{Tool: toolDescribeConfigs, Args: json.RawMessage(`{"topics":` + string(kj) + `}`)},
+					c40Call{Tool: toolFetchOffsets, Args: json.RawMessage(`{"group_id":"g1","topics":[]}`)}, c40Call{Tool: toolFetchOffsets, Args: json.RawMessage(`{"group_id":"g1","topics":` + string(kj) + `}`)})
 			}
 			cs.Later = c40GenLater(rr, cs)
 			runOne(cs)
